@@ -296,6 +296,20 @@ struct Run<T: Ty> {
 	immediate: bool,
 	/// documented-formula reference for the tween in flight: (easing, duration s, elapsed s)
 	formula: Option<(kira::Easing, f64, f64)>,
+	/// the value the parameter is idle on is linked to this modulator (index, mapping): set by `new` with a
+	/// modulator value and when a tween to a modulator target has finished; cleared by every `set`
+	idle_on_mod: Option<(usize, Mapping<T>)>,
+	/// modulator target of the tween in flight
+	pending_mod: Option<(usize, Mapping<T>)>,
+}
+
+/// `mod:<id>:…` → (index of the modulator, mapping)
+fn mod_link<T: Ty>(s: &str, ids: &Ids) -> Option<(usize, Mapping<T>)> {
+	let id = s.strip_prefix("mod:")?.split(':').next()?.parse::<usize>().ok()?;
+	match parse_value::<T>(s, ids) {
+		Value::FromModulator { mapping, .. } => Some((id, mapping)),
+		_ => None,
+	}
 }
 
 fn exec_typed<T: Ty>(case: &[String], first: usize, out: &mut Out, ids: &Ids, info_state: &mut InfoState) {
@@ -324,6 +338,8 @@ fn exec_typed<T: Ty>(case: &[String], first: usize, out: &mut Out, ids: &Ids, in
 					positive_easing: true,
 					immediate: true,
 					formula: None,
+					idle_on_mod: mod_link::<T>(tok[2], ids),
+					pending_mod: None,
 				});
 			}
 			"set" => {
@@ -343,6 +359,8 @@ fn exec_typed<T: Ty>(case: &[String], first: usize, out: &mut Out, ids: &Ids, in
 				} else {
 					None
 				};
+				r.idle_on_mod = None;
+				r.pending_mod = mod_link::<T>(tok[1], ids);
 				r.p.set(v, tw);
 				out.put("ok");
 			}
@@ -407,6 +425,21 @@ fn exec_typed<T: Ty>(case: &[String], first: usize, out: &mut Out, ids: &Ids, in
 					if let (Some(t), Some(v)) = (r.tween_target, r.p.value().scalar()) {
 						if v.to_bits() != t.to_bits() && !(v == 0.0 && t == 0.0) {
 							out.oracle_fail("holds_target", l);
+						}
+					}
+				}
+				// C06 "from the end of the tween onward equals the target", for a target that is a modulator:
+				// the target is the mapping of the modulator's value at this update (Value::FromModulator docs),
+				// so from the finishing update on - and for a parameter linked from construction - the value
+				// is exactly Mapping::map(modulator value) whenever that modulator exists. Exact (same f64/f32
+				// mapping arithmetic, no interpolation involved once the tween is over).
+				if fin {
+					r.idle_on_mod = r.pending_mod.take();
+				}
+				if let Some((id, mapping)) = &r.idle_on_mod {
+					if let Some(mv) = info_state.mods.get(*id) {
+						if r.p.value().show() != mapping.map(*mv).show() {
+							out.oracle_fail("follows_modulator_target", l);
 						}
 					}
 				}
